@@ -131,12 +131,39 @@ def layout_items(run, rng, tier):
 R, S = '23456789TJQKA', 'cdhs'
 
 
+def vcid(c) -> int:
+    """all 70 cards over ranks x suits incl. the unknown rank and the unknown suit: 0..51 as everywhere, 52 = '??',
+    53 + r = rank r of an unknown suit ('A?'), 66 + s = unknown rank of suit s ('?s')"""
+    r, s = c.rank.value, c.suit.value
+    if r == '?' and s == '?':
+        return 52
+    if s == '?':
+        return 53 + R.index(r)
+    if r == '?':
+        return 66 + S.index(s)
+    return R.index(r) * 4 + S.index(s)
+
+
+def vtext(i: int) -> str:
+    if i < 52:
+        return R[i // 4] + S[i % 4]
+    if i == 52:
+        return '??'
+    return R[i - 53] + '?' if i < 66 else '?' + S[i - 66]
+
+
+def vcard(i: int):
+    from pokerkit import Card, Rank, Suit
+    t = vtext(i)
+    return Card(Rank(t[0]), Suit(t[1]))
+
+
 def spell(cards, rng):
     """a spelling of the cards: rank char + suit char, '10' for a ten, cards run together or separated by blanks / commas"""
     parts = []
     for c in cards:
-        if c == 52:
-            t = '??'
+        if c >= 52:
+            t = vtext(c)
         else:
             r = R[c // 4]
             t = ('10' if r == 'T' and rng.random() < 0.5 else r) + S[c % 4]
@@ -155,19 +182,21 @@ def card_items(run, rng, tier):
 
     def ask(text, cards, valid):
         try:
-            got, raised = [card_int(c) for c in Card.parse(text)], False
+            got, raised = [vcid(c) for c in Card.parse(text)], False
         except ValueError:
             got, raised = [], True
         except Exception:  # noqa: BLE001
             got, raised = [-1], False
         items.append({'kind': 'cards', 'text': text, 'cards': cards, 'valid': valid, 'got': got, 'raised': raised})
-    for c in range(53):
-        ask(repr(int_card(c)), [c], True)
+    for c in range(70):
+        ask(repr(vcard(c)), [c], True)
         run.count('card_repr')
+        if c > 52:
+            run.count('card_partly_unknown')
         if c < 52 and c // 4 == 8:
             ask('10' + S[c % 4], [c], True)
     for _ in range(1500 if tier == 'quick' else 20000):
-        cs = [rng.choice(list(range(52)) + [52]) for _ in range(rng.randint(1, 7))]
+        cs = [rng.choice(list(range(52)) + [52, 52, rng.randrange(53, 70)]) for _ in range(rng.randint(1, 7))]
         ask(spell(cs, rng), cs, True)
         run.count('card_strings')
     for bad in ['A', 'Asx', '1s', 'Ax', 'AsK', 'as', 'AS', 'Zs', '0s', '11s', 'A s']:
@@ -175,10 +204,10 @@ def card_items(run, rng, tier):
         run.count('card_invalid')
     # other card-like objects through Card.clean
     for _ in range(60):
-        cs = [rng.randrange(52) for _ in range(rng.randint(1, 5))]
-        objs = [int_card(c) for c in cs]
+        cs = [rng.randrange(70) if rng.random() < 0.3 else rng.randrange(52) for _ in range(rng.randint(1, 5))]
+        objs = [vcard(c) for c in cs]
         for form in (tuple(objs), list(objs), (x for x in objs), objs[0] if len(objs) == 1 else tuple(objs)):
-            got = [card_int(c) for c in Card.clean(form)]
+            got = [vcid(c) for c in Card.clean(form)]
             items.append({'kind': 'cards', 'text': 'objects', 'cards': cs, 'valid': True, 'got': got, 'raised': False})
     return items
 
@@ -244,7 +273,7 @@ def check_C19(run: Run):
         run_items(run, items, 'C19_' + name, sig=sig)
     run.rule = ('clean_values on all vectors over {0,1,2}^n (n<=3, sampled above) in every way of writing them; layouts (valid and '
                 'each documented kind of invalid) constructed through State in every combination of writings and through one game '
-                'object reused for two table sizes; every card repr, random card strings with mixed separators and "10", invalid '
+                'object reused for two table sizes; every card repr over ranks x suits incl. the unknown rank and the unknown suit (70), random card strings with mixed separators and "10", invalid '
                 'strings; divmod for amount<=40 x divisor<=9 (integral and exact) and for float and Decimal amounts up to 40.00 in cents and in whole chips x divisor<=9 (parts re-added exactly), rake for amount<=40 x 8 percentages x 4 caps. '
                 'The spelling renderer and the construction of the Python objects are part of the trusted harness')
-    run.need('clean:map', 'layouts', 'card_strings', 'rake_cases', 'divmod_rounding_residue')
+    run.need('clean:map', 'layouts', 'card_strings', 'rake_cases', 'divmod_rounding_residue', 'card_partly_unknown')
